@@ -204,10 +204,14 @@ def hv(ctx, command, **kw):
     return s
 
 
+LAST_TRACE_OUT = {}     # trace file -> TLC output of its last validation (for diagnostics printed by a trace specification)
+
+
 def tlc_trace(ctx, cfg, module, trace_file, timeout=1800):
     """impl -> spec: TLC validates recorded events/bytes. Returns (accepted, index of first rejected record or None)."""
     r = tlc(ctx, cfg, module, workers=1, timeout=timeout, jvm=["-Xmx2g"], env={"TRACE": trace_file,
             "JAVA_TOOL_OPTIONS": "-Xss1g -Dtlc2.tool.queue.IStateQueue=StateDeque"}, count=True, allow_fail=True)
+    LAST_TRACE_OUT[trace_file] = r["out"]
     if r["ok"]:
         return True, None
     last = None
@@ -344,9 +348,16 @@ def trace_jax(ctx, runs, big_every=0, only_run=None):
         ev = json.loads(lines[line_no - 1]) if line_no and line_no <= len(lines) else {}
         os.makedirs(REPLAYS, exist_ok=True)
         rp = os.path.join(REPLAYS, f"C09-jax-seed{ctx.seed}-run{run['run']}.json")
+        diff = ""
+        try:
+            for ln in open(LAST_TRACE_OUT[f["file"]], errors="replace"):
+                if ln.startswith('<<"DIFF", '):
+                    diff = ln.strip()[len('<<"DIFF", '):-2]
+        except Exception:
+            pass
         what = (f"trace validation: random file set of run {run['run']}: {ev.get('loader', '?')} loader " +
                 (f"failed on a file set inside the documented envelope: {str(ev.get('error'))[:200]}" if ev.get("e") != "Load"
-                 else "loaded facts that are not the ones the files describe (Describes of spec/HpoJax.tla); loaded " + json.dumps(ev.get("loaded"))[:500]))
+                 else "loaded facts that are not the ones the files describe (Describes of spec/HpoJax.tla): " + (diff[:700] if diff else "loaded " + json.dumps(ev.get("loaded"))[:500])))
         json.dump({"cmd": "trace-jax", "property": "C09", "seed": ctx.seed, "runs": runs, "big_every": big_every, "run": run["run"], "line": line_no,
                    "event": ev, "diffs": [what]}, open(rp, "w"), indent=1)
         ctx.violations.append(dict(property="C09", what=what, replay=rp))
